@@ -9,7 +9,7 @@ def run(tier, rep):
     with Scratch() as sc:
         sfs, extra = lr.spec_files(sc, specWfK=K)
         res = run_gosym(lr.spec_cfg(sfs, extra, 'harnessC07WellFormed', tier, opaque_pkgs=['math/rand'], max_steps=80000000), sc, 'c07', timeout=6 * 3600)
-        merge_gosym(rep, res, 'spec.Parse + Spec.DFA on four fixed openings followed by every sequence of <= %d tokens (kinds symbolic, lexemes from small pools): rejected iff a documented defect is present; diagnostics; one definition per terminal' % K)
+        merge_gosym(rep, res, 'spec.Parse + Spec.DFA on five fixed openings followed by every sequence of <= %d tokens (kinds symbolic, lexemes from small pools): rejected iff a documented defect is present; diagnostics; one definition per terminal' % K)
         seen = {}
         for v in res.get('violations') or []:
             key = v['msg'][:60]
